@@ -313,10 +313,11 @@ def run(ctx):
     ctx.flush()
     # ---- C15.f dominant-frequency trace: every admissible harmonic
     ns = list(range(8, 41)) + [48, 63, 64] if quick else list(range(8, 129)) + [200, 255, 256]
-    for n in ns:
+    hs = gen.hint_sizes(ctx, lo=41, hi=700, cap=6, halves=True)       # source hints: lengths n with n and n // 2 around every new integer constant of eqsig/stockwell.py
+    for n in ns + hs:
         P = n // 2
         ks = list(range(2, int(0.75 * P) + 1))
-        if quick and len(ks) > 6:
+        if (quick or n in hs) and len(ks) > 6:
             ks = sorted(set([2, ks[-1]] + rng.sample(ks, 4)))
         for k0 in ks:
             dominant_trace(ctx, n, k0, rng.choice([0.01, 0.02, 0.5, 1.0]), rng.uniform(0, 2 * math.pi), use_object=(k0 % 3 == 0))
@@ -462,6 +463,7 @@ def _x2_large(ctx, cur):
     independent O(N^2)/O(N^3) sums, marginal, inverse, both implementations, linearity) -- no model correspondence at these sizes"""
     rng = ctx.rng
     sizes = [1024, rng.choice([777, 1000, 1023])] if ctx.tier == 'quick' else [1024, 1023, 1000, 1536, 2048]
+    sizes = sizes + gen.hint_sizes(ctx, lo=65, hi=3300, cap=12, halves=True)       # source hints: n and n // 2 around every new integer constant of eqsig/stockwell.py
     for n in sizes:
         kind = rng.choice(['noise', 'offset', 'int-dtype'])
         seed = rng.randrange(2 ** 31)
